@@ -108,3 +108,15 @@ PROPS["C06"] = {
         {"name": "c06-handshake", "pkg": "internal/handshake", "run": "TestVerifC06", "timeout": {"quick": 900, "thorough": 3000}},
     ],
 }
+PROPS["C17"] = {
+    "level": "exploration",
+    "units": [
+        {"name": "c17-pure", "pkg": "pkg/rendezvous", "run": "TestVerifC17Pure", "timeout": {"quick": 600, "thorough": 1800}},
+        {"name": "c17-rotation", "pkg": "pkg/rendezvous", "run": "TestVerifC17Rotation", "instr": ["pkg/rendezvous/rotation.go|clock"],
+         "timeout": {"quick": 600, "thorough": 1800}},
+        {"name": "c17-marshaler", "pkg": ROOT, "run": "TestVerifC17Marshaler", "instr": ["pkg/rendezvous/rotation.go|clock"],
+         "timeout": {"quick": 900, "thorough": 1800}},
+        {"name": "c17-realtime", "pkg": "pkg/rendezvous", "run": "TestVerifC17RealTime", "tiers": ("thorough",),
+         "timeout": {"quick": 600, "thorough": 1800}},
+    ],
+}
